@@ -318,6 +318,22 @@ def generic_rules(body):
         i_, x_, e_ = h.group(1), h.group(2), body[h.start(3):h.end(3)]
         edits.append((h.start(), h.end(), '{ let enum_s__ = %s; let mut %s: usize = 0; while %s < enum_s__.len() { let %s = &enum_s__[%s];' % (e_, i_, i_, x_, i_), 'R16'))
         edits.append((cb, cb + 1, ' %s += 1; } }' % i_, 'R16'))
+    # R23  for (A, B) in X.iter().zip(Y.iter_mut()) { BODY }
+    #        =>  { let zip_n__ = if X.len() < Y.len() { X.len() } else { Y.len() }; let mut zip_i__: usize = 0;
+    #              while zip_i__ < zip_n__ { let A = &X[zip_i__]; let B = slice_at_mut(Y, zip_i__); BODY  zip_i__ += 1; } }
+    #      (zip stops at the shorter side; iter_mut hands out the elements one after the other; refuses `continue`)
+    for h in re.finditer(r'\bfor\s*\(\s*(\w+)\s*,\s*(\w+)\s*\)\s*in\s+(\w+)\s*\.\s*iter\(\)\s*\.\s*zip\s*\(\s*(\w+)\s*\.\s*iter_mut\(\)\s*\)\s*\{', m):
+        ob = h.end() - 1
+        cb = match_brace(m, ob)
+        if re.search(r'\bcontinue\b', m[ob:cb]):
+            raise LostAnchor('rule R23 refuses a loop body with continue')
+        a_, b_, x_, y_ = h.group(1), h.group(2), h.group(3), h.group(4)
+        edits.append((h.start(), h.end(), '{ let zip_n__ = if %s.len() < %s.len() { %s.len() } else { %s.len() }; let mut zip_i__: usize = 0; '
+                      'while zip_i__ < zip_n__ { let %s = &%s[zip_i__]; let %s = slice_at_mut(%s, zip_i__);' % (x_, y_, x_, y_, a_, x_, b_, y_), 'R23'))
+        edits.append((cb, cb + 1, ' zip_i__ += 1; } }', 'R23'))
+    # R24  &mut E[(A)..]  =>  slice_cursor_from(E, (A))     (a `&mut [u8]` used as io::Write: the stand-in is a cursor with the bytes still free)
+    for h in re.finditer(r'&\s*mut\s+(\w+)\s*\[\s*(\([^\]]*?\))\s*\.\.\s*\]', m):
+        edits.append((h.start(), h.end(), 'slice_cursor_from(%s, %s)' % (h.group(1), body[h.start(2):h.end(2)]), 'R24'))
     # R17  E.into_iter().rev().map(|X| B).collect()
     #        =>  { let mut rev_src__ = E; let mut rev_out__ = Vec::new();
     #              loop { match rev_src__.pop() { Some(X) => { rev_out__.push(B); } None => break, } } rev_out__ }
